@@ -404,7 +404,9 @@ def clear_caches():
             if hasattr(obj, "cache_clear"):
                 obj.cache_clear()
                 n += 1
-    for name in ("_get_expression_and_properties", "get_time_zone"):
-        getattr(dumpers.TimePointDumper, name).cache_clear()
-        n += 1
+    for name in dir(dumpers.TimePointDumper):
+        obj = getattr(dumpers.TimePointDumper, name, None)
+        if hasattr(obj, "cache_clear"):
+            obj.cache_clear()
+            n += 1
     return n
